@@ -39,7 +39,7 @@ def required_buckets(tier):
     req += ['C03/fill_to/L/exact:capacity/accepted', 'C03/fill_to/L/infeasible:capacity/refused',
             'C03/dilute/infeasible:above_current/refused', 'C03/dilute/feasible:/accepted',
             'C03/probe/B8_recipe', 'C03/probe/B9_zero_measure', 'C03/sweep/', 'C03/solutions/create_solution',
-            'C03/solutions/create_solution_from', 'C05/infeasible/', 'C12/infeasible/above_stock']
+            'C03/solutions/create_solution_from', 'C05/infeasible/', 'C12/infeasible/above_stock', 'C03/sweep/whole_content_in_equal_parts']
     return req
 
 
@@ -406,6 +406,25 @@ def sweep(rng, case, idx):
                         pass
                     M.expect = None
             M.note_nontrivial('C03', ('sweep', liq.name, q))
+        if n % 6 == 0:
+            # the whole content of a container dispensed in m equal parts: m x q is exactly what it holds (in decimal; the float
+            # product may land a hair above the stored volume) - a request that fits
+            import decimal
+            m_ = [2, 3, 6, 7, 12, 24][(n // 6) % 6]
+            q_ = ['0.1', '1.1', '10.4', '2.5', '33.3', '0.7', '12.3'][(n // 6) % 7]
+            for unit_ in ('uL', 'mg'):
+                tot_ = decimal.Decimal(q_) * m_
+                with M.active(case):
+                    try:
+                        stock_ = C('stock', initial_contents=[(liq, f'{tot_} {unit_}')])
+                        plate_ = pp.Plate('p', '1 mL', rows=1 if m_ < 12 else 2, columns=m_ if m_ < 12 else m_ // 2)
+                    except Exception:   # noqa
+                        continue
+                    M.bucket('C03/sweep/whole_content_in_equal_parts')
+                    try:
+                        pp.Plate.transfer(stock_, plate_, f'{q_} {unit_}')
+                    except Exception:   # noqa
+                        pass
     return None
 
 
